@@ -7,7 +7,7 @@ header-producing API path of a real ``RequestHandler`` (set_header/add_header na
 str/bytes, set_status reason, HTTPError(reason=), redirect, set_cookie name/value/domain/path/
 samesite/legacy kwargs, set_signed_cookie, clear_cookie) or through the lower layer
 (``HTTPConnection.write_headers`` with an ``HTTPHeaders`` filled by ``__setitem__``), in three
-response shapes (GET 200 with body, HEAD, GET 204).  The app runs on ``HTTPServer.handle_stream``
+response shapes (GET 200 with body, HEAD, GET 204, and a streaming GET: write; flush(); write; finish()).  The app runs on ``HTTPServer.handle_stream``
 over the in-memory transport.
 
 Oracle (dichotomy of the statement): the handler records whether the API call raised.
@@ -38,6 +38,9 @@ Sensitivity (scratch copies, quick tier, seed 1):
   * web.py _convert_header_value returns bytes values unvalidated      -> caught (dropped / NUL on wire)
   * web.py legacy "[\x00-\x20] in cookie value" check removed          -> NOT flagged, correctly: http.cookies
     octal-quotes those characters, the response is exact (equivalent mutant w.r.t. this property)
+  * web.py cookie finalisation moved from flush() into finish()'s not-yet-written section              -> caught at seeds
+    1,2,3 (intended_line_missing for every cookie api in the streaming shape STREAM200 = write; flush(); write; finish()).
+    Missed before: no shape flushed before finish().
 Not implemented from DESIGN: `expires` as an injection position (the documented types float/tuple/datetime
 carry no text); header values as int/datetime (no payload can be carried).
 """
@@ -54,7 +57,7 @@ from vlib import webutil_c2 as wu
 PROPERTY = "C07"
 READY = True
 RULE = (
-    "Hypothesis: (api path of 27, response shape of 3, str/bytes, payload = benign + <=3 chars of a "
+    "Hypothesis: (api path of 27, response shape of 4, str/bytes, payload = benign + <=3 chars of a "
     "control/separator/non-ASCII alphabet + injected-line tail | free text over that alphabet); plus an "
     "enumerated sweep of single characters (quick: 60 critical code points; thorough: every code point "
     "0..0x2FF and samples above) at start/middle/end of the payload for every api path; non-trivial = "
@@ -74,7 +77,7 @@ LEVEL_TEXT = (
 )
 SHARDS = 16
 
-SHAPES = ["GET200", "HEAD200", "GET204"]
+SHAPES = ["GET200", "HEAD200", "GET204", "STREAM200"]
 
 COOKIE_APIS = [
     "cookie_name", "cookie_value", "cookie_domain", "cookie_path", "cookie_samesite",
@@ -175,7 +178,13 @@ class ApiHandler(tornado.web.RequestHandler):
             raise
         c["raised"] = None
         if not self._finished and c["shape"] != "GET204":
-            self.write(b"BODY")
+            if c["shape"] == "STREAM200":
+                # streaming response: the header block leaves with an explicit flush() before finish()
+                self.write(b"BO")
+                self.flush()
+                self.write(b"DY")
+            else:
+                self.write(b"BODY")
 
     head = get
 
@@ -472,6 +481,8 @@ def evaluate(api, shape, payload):
                 extra.remove(hv)
             else:
                 return problem("C07.header_lines_differ", {"missing": hv, "headers": got})
+        if not extra:
+            return problem("C07.intended_line_missing", {"headers": got})
         if len(extra) != 1:
             return problem("C07.extra_header_line", {"extra": extra})
         (gn, gv), = extra
@@ -594,6 +605,11 @@ def sweep_cases(thorough):
             if api not in LOW_APIS:
                 yield (api, "HEAD200", "ab" + ch + "Injected: 1")
                 yield (api, "GET204", "ab" + ch + "Injected: 1")
+                yield (api, "STREAM200", "ab" + ch + "Injected: 1")
+                if ch == " ":
+                    # a plainly valid payload in every shape: the intended line must be there
+                    for shape in SHAPES:
+                        yield (api, shape, "abc")
             if api in BYTES_OK and cp < 0x100:
                 yield (api, "GET200", b"ab" + bytes([cp]) + b"Injected: 1")
 
